@@ -16,6 +16,11 @@
   (quantizer, weight) pairing of QBatchNormalization (any scale / center) and QBidirectional
   (`bnQs`, `bidirQs`), a `signs` slot for every weight, pooling layers without average quantizer,
   and a floating-point `2**integer` in the auto_po2 branch.
+  Fix round 2 (notes/C14.md "Fix round 2"): the QBatchNormalization pairing is selected by
+  `isinstance(layer, QBatchNormalization)` (`Layer.isBN`: the layer carries the batch-norm
+  attributes `bn`), no longer by the class NAME — user subclasses are paired like the library class.
+  The fusing decisions (find_bn_fusing_layer_pair, the `enable_bn_fusing` mark) still read the
+  class name, as the code does.
 -/
 import QKV.Model.Basic
 namespace QKV.Export
@@ -104,15 +109,17 @@ def zipApply : List (Option Quant) → List Tensor → List Tensor
   | _, _ => []
 
 inductive LKind
-  | plain      -- qs = get_quantizers() (QBatchNormalization: its own pairing, `bnQs`), ws = get_weights(), set_weights(weights)
+  | plain      -- qs = get_quantizers() (instances of QBatchNormalization: their own pairing, `bnQs`), ws = get_weights(), set_weights(weights)
   | rnn        -- QSimpleRNN / QLSTM / QGRU: qs = get_quantizers()[:-1]
   | bidir      -- QBidirectional: per direction ITS get_quantizers()[:len(ITS get_weights())], `bidirQs`
   | folded     -- QConv2DBatchnorm / QDepthwiseConv2DBatchnorm: ws = get_folded_weights(), not written back
   | noQuant    -- no `get_quantizers` attribute: untouched, no dictionary entry
   deriving Repr, DecidableEq, Inhabited
 
-/-- QBatchNormalization attributes read by add_bn_fusing_weights; its five quantizers
-    [gamma, beta, mean, variance, inverse] are the layer's `qs` -/
+/-- QBatchNormalization attributes read by the main loop and by add_bn_fusing_weights; its five
+    quantizers [gamma, beta, mean, variance, inverse] are the layer's `qs`.  A layer carries them
+    (`Layer.bn = some _`) exactly when it is an instance of QBatchNormalization — the library class
+    or ANY subclass of it, whatever its class name -/
 structure BNInfo where
   scale : Bool
   center : Bool
@@ -132,7 +139,7 @@ structure Layer where
   fwd : List (Option Quant)                  -- the (quantizer, weight) pairing the layer's own call() uses
   fold : List Tensor → List Tensor           -- get_folded_weights() as a function of get_weights()
   useBias : Bool
-  bn : Option BNInfo
+  bn : Option BNInfo                         -- some _ ⇔ isinstance(layer, QBatchNormalization)
   pool : Option PoolInfo
   succ : List Nat                            -- graph successors (consumer layers; [sink] if none)
   allow : Bool                               -- class name in get_model_sparsity's default allow_list
@@ -160,13 +167,21 @@ def bidirQs (nwF nwB nq : Nat) (qs : List (Option Quant)) : List (Option Quant) 
 
 def defaultBN : BNInfo := { scale := true, center := true, eps := 0 }
 
-/-- the quantizer list the main loop zips with the layer's weights -/
+/-- `isinstance(layer, QBatchNormalization)`: the library class or a user subclass of it -/
+def Layer.isBN (l : Layer) : Bool := l.bn.isSome
+
+/-- the quantizer list the main loop zips with the layer's weights.
+    `elif isinstance(layer, QBatchNormalization)` (fix round 2; was
+    `layer.__class__.__name__ == "QBatchNormalization"`): the batch-norm pairing does not read the
+    class name, so a subclass `MyBN(QBatchNormalization)` gets `bnQs` as well -/
 def layerQs (l : Layer) : List (Option Quant) :=
   match l.kind with
   | .rnn => l.qs.dropLast
   | .bidir => bidirQs l.dirW l.dirWb l.dirQ l.qs
   | .folded => l.qs
-  | _ => if l.cls = "QBatchNormalization" then bnQs (l.bn.getD defaultBN) l.qs else l.qs
+  | _ => match l.bn with
+         | some info => bnQs info l.qs
+         | none => l.qs
 
 def layerWs (l : Layer) (w : List Tensor) : List Tensor :=
   match l.kind with
